@@ -453,6 +453,7 @@ def gen_c08(rng, idx, tier, faults):
             q["score_threshold_type"] = t
         seq = [{"op": "NEW", "obj": name, "cls": cls, "params": q, "final": final, "X": xn, "y": yn}]
         mk_env = (lambda: env_fault(rng, fam, p, ["clock", "arpack", "rng"])) if faults else (lambda: quiet_env(rng, fam))
+        moved = False
         for si, s in enumerate(sched):
             if si > 0:
                 seq.append({"op": "SET", "obj": name, "params": {"n_to_select": n_form(rng, s, n_from)}})
@@ -473,14 +474,21 @@ def gen_c08(rng, idx, tier, faults):
                     )
                 elif r < 0.42 and "score_threshold" not in q:
                     seq.append({"op": "SET", "obj": name, "params": {"score_threshold": None}})
-            xuse = xn
-            if si > 0 and rng.random() < 0.15:
+            xuse = xn if not moved else xn + "c"
+            if si > 0 and not moved and rng.random() < 0.15:
                 xuse = xn + "c"
                 heap[xuse] = dict(heap[xn])  # same recipe: equal values, another array object
                 heap[xuse]["storage"] = rng.choice(["C", "F", "view"])
+                if rng.random() < 0.5:
+                    # ... because the caller has meanwhile reused the buffer it fitted on
+                    moved = True
+                    rec = {k: v for k, v in heap[xn].items() if k != "storage"}
+                    rec["seed"] = _seed(rng)
+                    seq.append({"op": "MUTATE", "h": xn, "recipe": rec})
             seq.append({"op": "FIT", "obj": name, "X": xuse, "y": yn, "warm": si > 0, "env": mk_env()})
             if rng.random() < 0.3:
                 seq.append(gen_read(rng, name, cls))
+        xfin = xn + "c" if moved else xn
         if fam == "fps" and rng.random() < 0.35:
             # FPS initialised with the already selected prefix
             name2 = f"p{o}"
@@ -488,7 +496,7 @@ def gen_c08(rng, idx, tier, faults):
             q2["n_to_select"] = final
             q2["initialize"] = {"$prefix_of": name, "len": rng.randint(1, final)}
             seq.append({"op": "NEW", "obj": name2, "cls": cls, "params": q2, "final": final, "twin_from": name})
-            seq.append({"op": "FIT", "obj": name2, "X": xn, "y": yn, "warm": False, "env": mk_env()})
+            seq.append({"op": "FIT", "obj": name2, "X": xfin, "y": yn, "warm": False, "env": mk_env()})
         if fam in ("fps", "pcovfps", "voronoi") and rng.random() < 0.1:
             # the only fit so far failed (mistyped initialize) before anything was selected:
             # the selector has never been fitted, so a warm start must still be rejected
@@ -497,13 +505,13 @@ def gen_c08(rng, idx, tier, faults):
             q4["n_to_select"] = final
             q4["initialize"] = rng.choice(["randm", "first", n_from + 3, -n_from - 2])
             seq.append({"op": "NEW", "obj": name4, "cls": cls, "params": q4, "final": final})
-            seq.append({"op": "FIT", "obj": name4, "X": xn, "y": yn, "warm": False, "env": None, "expect_fail": True})
+            seq.append({"op": "FIT", "obj": name4, "X": xfin, "y": yn, "warm": False, "env": None, "expect_fail": True})
             seq.append({"op": "SET", "obj": name4, "params": {"initialize": rng.randrange(n_from)}})
-            seq.append({"op": "FIT", "obj": name4, "X": xn, "y": yn, "warm": True, "expect": "reject", "env": None})
+            seq.append({"op": "FIT", "obj": name4, "X": xfin, "y": yn, "warm": True, "expect": "reject", "env": None})
         if rng.random() < 0.1:
             name3 = f"u{o}"
             seq.append({"op": "NEW", "obj": name3, "cls": cls, "params": {k: v for k, v in q.items() if not k.startswith("score_threshold")}, "final": final})
-            seq.append({"op": "FIT", "obj": name3, "X": xn, "y": yn, "warm": True, "expect": "reject", "env": None})
+            seq.append({"op": "FIT", "obj": name3, "X": xfin, "y": yn, "warm": True, "expect": "reject", "env": None})
         plans.append(seq)
     while any(plans):
         s = rng.choice([q for q in plans if q])
